@@ -94,6 +94,14 @@ def recipOfNat (n : Nat) : Nat :=
   | .inf _ => 0
   | .nan => 0x7FC00000
 
+/-- number of grid points `k·2⁻²⁴` (`0 ≤ k < 2²⁴`) strictly below the `f32` with bits `rate`:
+    `⌈rate · 2²⁴⌉` clipped to `[0, 2²⁴]` - the number of outcomes of `random::<f32>()` for which `r < rate` -/
+def cutoff (rate : Nat) : Nat :=
+  match decode rate with
+  | .fin s => if s ≤ 0 then 0 else min ((s.toNat + 2 ^ 125 - 1) / 2 ^ 125) (2 ^ 24)
+  | .inf false => 2 ^ 24
+  | _ => 0
+
 end Uec.F32
 
 namespace Uec.F64
